@@ -40,7 +40,7 @@ def close(a, b):
 
 def run(ctx):
     ctx.simgrid(["simgrid"])
-    ctx.level = "differential"
+    ctx.level = "exploration"
     drv = fw.build_harness("lmm_drv")
     if ctx.replay:
         hist = [L.ops_of_case(json.load(open(ctx.replay))["case"])]
@@ -104,7 +104,7 @@ def run(ctx):
 
 
 META = {
-    "level": "differential",
+    "level": "exploration",
     "text": "Differential check only (no theorem): real MaxMin with selective update vs. without vs. with visited_counter_ wrapping vs. a fresh system "
             "rebuilt from the current activities, at every solve() of random 60-modification histories. It found and led to the repair of a real defect "
             "(update_modified_cnst_set_from_variable flagged only cnsts_[0]).",
